@@ -202,3 +202,33 @@ def exists(sort, f):
     n = f.__code__.co_argcount
     doms = [_domain(s) for s in (sort if isinstance(sort, list) else [sort] * n)]
     return any(f(*xs) for xs in itertools.product(*doms))
+
+
+_PY_WS = "\t\n\x0b\x0c\r\x1c\x1d\x1e\x1f \x85\xa0                　"
+
+
+def py_strip(s):
+    return s.strip()
+
+
+def strip_unique(s, a, r, b):
+    """If s = a + r + b with a, b whitespace-only and r non-empty without whitespace at its ends,
+    then s.strip() == r.  (Trusted fact about str.strip; replay scripts re-check the instance.)"""
+    pre = (s == a + r + b and all(c in _PY_WS for c in a) and all(c in _PY_WS for c in b)
+           and len(r) > 0 and r[0] not in _PY_WS and r[-1] not in _PY_WS)
+    return (not pre) or s.strip() == r
+
+
+def strip_padded(s, a, r, b, pattern):
+    import re
+
+    pre = (s == a + r + b and all(c in _PY_WS for c in a) and all(c in _PY_WS for c in b)
+           and re.fullmatch(pattern, r) is not None)
+    return (not pre) or s.strip() == r
+
+
+def int_of_signed(c, sg, d):
+    pre = c == sg + d and sg in ("", "+", "-") and d.isascii() and d.isdigit()
+    if not pre:
+        return True
+    return int(c) == (-int(d) if sg == "-" else int(d))
